@@ -18,3 +18,54 @@ def implies(a, b):
 
 def seq_prefix(xs, k):
     return xs[:k]
+
+
+# ---- serialisation libraries and file contents (assumed contracts; native twins for replays) -------------
+def orjson_dumps(value, option):
+    import orjson
+    return orjson.dumps(value, option=_orjson_option(option)).decode()
+
+
+def _orjson_option(option):
+    import orjson
+    o = 0
+    for bit, flag in ((1, orjson.OPT_SORT_KEYS), (2, orjson.OPT_SERIALIZE_NUMPY), (4, orjson.OPT_NON_STR_KEYS), (8, orjson.OPT_INDENT_2)):
+        if option & bit:
+            o |= flag
+    return o
+
+
+def orjson_loads(text):
+    import orjson
+    return orjson.loads(text)
+
+
+def content_append(content, text):
+    return (content or '') + text
+
+
+def content_text(content):
+    return content or ''
+
+
+def npy_bytes(value):
+    import io
+    import numpy as np
+    b = io.BytesIO()
+    np.save(b, value)
+    return b.getvalue()
+
+
+def npy_load(content):
+    import io
+    import numpy as np
+    return np.load(io.BytesIO(content))
+
+
+def lib_bytes(fn_name, value):
+    """opaque serialised bytes of a value by the named library function (pd_bytes, fig_bytes, ...)"""
+    return (fn_name, repr(value))
+
+
+def lib_load(fn_name, content):
+    return (fn_name, content)
